@@ -33,3 +33,23 @@ Print Assumptions C05_record_wf.
 Print Assumptions C05_record_regs.
 Print Assumptions C05_replay_is_eval.
 Print Assumptions C05_replay_deterministic.
+
+(* ---- for the EXECUTABLE instance (coefficient lists of length D, kernels of Series.v; run by vm_compute in the correspondence
+   check): replaying the recorded tape gives the program's values at every Taylor order, and both refine the ring instance *)
+From AlgoV Require Import Series TracerExec TracerRefine.
+Theorem C05_exec_replay_is_eval (K : fieldType) (D : nat) (prog : seq (instr (seq K))) (ret : seq nat) (xs : seq (seq K)) :
+  all (@instr_ok K D) prog -> sized D xs -> wf_prog (size xs) prog ->
+  all (fun r => (r < size (record prog).2)%N) ret ->
+  forall i d, (i < size ret)%N -> (d < D)%N ->
+  (nth [::] (X_replay_out D (record prog).1 [seq nth 0%N (record prog).2 r | r <- ret] xs) i)`_d
+  = (nth [::] (X_eval_out D prog ret xs) i)`_d.
+Proof. exact: X_replay_is_eval. Qed.
+Print Assumptions C05_exec_replay_is_eval.
+Theorem C05_exec_replay_refines (K : fieldType) (D : nat) (t : tape (seq K)) outs xs : all (@node_ok K D) t -> sized D xs ->
+  sers_rel D (X_replay_out D t outs xs) (R_replay_out (recipP D) (unvalP D) (map (@nodeP K) t) outs (map Poly xs)).
+Proof. exact: X_replay_refines. Qed.
+Print Assumptions C05_exec_replay_refines.
+Theorem C05_exec_record_commutes (K : fieldType) (prog : seq (instr (seq K))) :
+  record (map (@instrP K) prog) = ([seq nodeP n | n <- (record prog).1], (record prog).2).
+Proof. exact: record_P. Qed.
+Print Assumptions C05_exec_record_commutes.
